@@ -22,6 +22,7 @@ NS = "sopht/simulator/flow/navier_stokes_flow_simulators.py"
 IB = "sopht/numeric/immersed_boundary_ops/"
 ROD = "sopht/simulator/immersed_body/cosserat_rod/cosserat_rod_forcing_grids.py"
 RIG = "sopht/simulator/immersed_body/rigid_body/rigid_body_forcing_grids.py"
+IBFI = "sopht/simulator/immersed_body/immersed_body_flow_interaction.py"
 
 # (name, file, old, new, properties that must report it)
 MUTANTS = [
@@ -29,7 +30,7 @@ MUTANTS = [
     ("curl-x-offset-3d", E3 + "curl_3d.py", "field_z[0, 1, 0] - field_z[0, -1, 0] - field_y[1, 0, 0]", "field_z[0, 1, 0] - field_z[0, -1, 0] - field_y[0, 0, 1]", ["C05", "C12", "C13", "C14"]),
     ("laplacian-centre-3d", E3 + "diffusion_flux_3d.py", "- 6 * field[0, 0, 0]", "- 5 * field[0, 0, 0]", ["C04", "C05", "C13", "C16"]),
     ("advection-flux-reset-dropped-2d", E2 + "advection_timestep_2d.py", "        set_fixed_val_pyst_kernel_2d(field=advection_flux, fixed_val=0)\n", "", ["C13", "C18", "C20", "C01"]),
-    ("filter-buffers-aliased", NS, "field_buffer=self.buffer_vector_field[1],", "field_buffer=self.buffer_vector_field[0],", ["C15", "C01"]),
+    ("filter-buffers-aliased", NS, "field_buffer=self.buffer_vector_field[1],", "field_buffer=self.buffer_vector_field[0],", ["C15", "C04"]),
     ("ssprk3-stage-weight", E3 + "vorticity_stretching_timestep_3d.py", "field_1_prefac=0.75,", "field_1_prefac=0.5,", ["C20"]),
     ("zone-copy-off-by-one-2d", E2 + "penalise_field_boundary_2d.py", "field[:, :width] = field[:, (width - 1) : width]", "field[:, :width] = field[:, width : (width + 1)]", ["C13", "C19", "C01"]),
     ("zone-sine-prefactor-3d", E3 + "penalise_field_boundary_3d.py", "sine_prefactor = (np.pi / 2) / (width * dx)", "sine_prefactor = (np.pi) / (width * dx)", ["C13", "C19"]),
@@ -73,6 +74,18 @@ MUTANTS = [
     ("flowforces-assign", "sopht/simulator/immersed_body/flow_forces.py", "system.external_forces += self.body_flow_interactor.body_flow_forces", "system.external_forces = self.body_flow_interactor.body_flow_forces", ["C08"]),
     ("position-field-not-flipped", "sopht/simulator/flow/flow_simulators.py", 'self.position_field = np.flipud(np.array(np.meshgrid(z, y, x, indexing="ij")))', 'self.position_field = np.array(np.meshgrid(z, y, x, indexing="ij"))', ["C05"]),
     ("advection-z-velocity-component", E3 + "advection_flux_3d.py", "            velocity_z=velocity[z_axis_idx],\n            inv_dx=inv_dx,\n        )\n        _advection_flux_z_back", "            velocity_z=velocity[y_axis_idx],\n            inv_dx=inv_dx,\n        )\n        _advection_flux_z_back", ["C04", "C05", "C14", "C13"]),
+    ("lag-grid-eval-position-twice", IBFI, "        self.forcing_grid.compute_lag_grid_position_field()\n        self.forcing_grid.compute_lag_grid_velocity_field()\n        self.compute_interaction_force_on_lag_grid(",
+     "        self.forcing_grid.compute_lag_grid_position_field()\n        self.forcing_grid.compute_lag_grid_position_field()\n        self.compute_interaction_force_on_lag_grid(", ["C10"]),
+    ("lag-grid-eval-velocity-first", IBFI, "        self.forcing_grid.compute_lag_grid_position_field()\n        self.forcing_grid.compute_lag_grid_velocity_field()\n        self.compute_interaction_force_on_lag_grid(",
+     "        self.forcing_grid.compute_lag_grid_velocity_field()\n        self.forcing_grid.compute_lag_grid_position_field()\n        self.compute_interaction_force_on_lag_grid(", ["C09", "C18"]),
+    ("io-time-narrowed-to-real-dtype", "sopht/utils/io.py", 'f.attrs["time"] = time', 'f.attrs.create("time", data=time, dtype=self.real_dtype)', ["C17"]),
+    ("diffusion-2d-flux-ring-not-reset", E2 + "diffusion_timestep_2d.py", "        num_threads=num_threads,\n    )\n\n    def diffusion_timestep_euler_forward_pyst_kernel_2d(",
+     "        num_threads=num_threads,\n        reset_ghost_zone=False,\n    )\n\n    def diffusion_timestep_euler_forward_pyst_kernel_2d(", ["C20", "C13", "C16"]),
+    ("convolution-filter-ring-reset-wrong-buffer", E3 + "laplacian_filter_3d.py", "        Applies convolution Laplacian filter on any scalar field.\n        \"\"\"\n        set_fixed_val_at_boundaries_3d(field=filter_flux_buffer, fixed_val=0)",
+     "        Applies convolution Laplacian filter on any scalar field.\n        \"\"\"\n        set_fixed_val_at_boundaries_3d(field=field_buffer, fixed_val=0)", ["C19"]),
+    ("cfl-measure-abs-of-sum", "sopht/simulator/flow/passive_transport_flow_simulators.py", "np.sum(np.fabs(velocity_field), axis=0)", "np.fabs(np.sum(velocity_field, axis=0))", ["C16"]),
+    ("penalised-velocity-wrong-component-3d", E3 + "update_vorticity_from_velocity_forcing_3d.py", "            penalised_velocity_field_z=penalised_velocity_field[z_axis_idx],\n            velocity_field_x=velocity_field[x_axis_idx],",
+     "            penalised_velocity_field_z=penalised_velocity_field[z_axis_idx],\n            velocity_field_x=velocity_field[y_axis_idx],", ["C12", "C13"]),
 ]
 
 # behaviour-preserving edits: every listed check must stay silent
@@ -94,6 +107,11 @@ CONTROLS = [
      "prefactor=self.real_t(1.0 / (2.0 * self.dx)),\n        )\n        self._update_velocity_with_free_stream(free_stream_velocity=free_stream_velocity)\n\n    def _navier_stokes_with_forcing_time_step(\n        self, dt: float, free_stream_velocity: np.ndarray = _zeros_2", ["C01"]),
     ("euler-update-commuted", IB + "VirtualBoundaryForcing.py", "            lag_grid_position_mismatch_field + dt * lag_grid_velocity_mismatch_field", "            dt * lag_grid_velocity_mismatch_field + lag_grid_position_mismatch_field", ["C10"]),
     ("cylinder-velocity-rewritten", RIG, "            self.cylinder.velocity_collection[1]\n            + global_frame_omega_z * self.global_frame_relative_position_field[0]", "            global_frame_omega_z * self.global_frame_relative_position_field[0]\n            + self.cylinder.velocity_collection[1]", ["C09"]),
+    ("io-time-explicit-float64", "sopht/utils/io.py", 'f.attrs["time"] = time', 'f.attrs.create("time", data=time, dtype=np.float64)', ["C17"]),
+    ("diffusion-2d-explicit-ghost-reset", E2 + "diffusion_timestep_2d.py", "        num_threads=num_threads,\n    )\n\n    def diffusion_timestep_euler_forward_pyst_kernel_2d(",
+     "        num_threads=num_threads,\n        reset_ghost_zone=True,\n    )\n\n    def diffusion_timestep_euler_forward_pyst_kernel_2d(", ["C20", "C13", "C16"]),
+    ("flow-forces-inlines-lag-grid-evaluation", IBFI, "        self.compute_interaction_on_lag_grid()\n        self.forcing_grid.transfer_forcing_from_grid_to_body(",
+     "        self.forcing_grid.compute_lag_grid_position_field()\n        self.forcing_grid.compute_lag_grid_velocity_field()\n        self.compute_interaction_force_on_lag_grid(\n            eul_grid_velocity_field=self.eul_grid_velocity_field,\n            lag_grid_position_field=self.forcing_grid.position_field,\n            lag_grid_velocity_field=self.forcing_grid.velocity_field,\n        )\n        self.forcing_grid.transfer_forcing_from_grid_to_body(", ["C08", "C09", "C10", "C18"]),
 ]
 
 
